@@ -20,6 +20,7 @@
 //! Known finding D1 (`D1:isolated-not`): recognised on the minimised witness as "contains a NOT
 //! that is not guarded by a positive AND sibling, and guarding every such NOT with an always-true
 //! sibling (`pres class`) makes the implementation's answer correct". Anything else is unclassified.
+#![allow(dead_code)]
 use hlib::*;
 use kanidm_proto::scim_v1::{AttrPath, ScimFilter};
 use kanidmd_lib::be::{Backend, BackendTransaction, IdxMeta, Limits};
@@ -31,563 +32,7 @@ use kanidmd_lib::verif_hooks::{c01, c02};
 use serde_json::{json, Value as Json};
 use std::collections::{BTreeMap, BTreeSet};
 
-// ---------------------------------------------------------------------------------------------
-// alphabet
-
-#[derive(Clone, Debug, PartialEq, Eq, Hash, PartialOrd, Ord)]
-enum V {
-    S(Vec<u8>),
-    N(u64),
-}
-
-#[derive(Clone, Debug, PartialEq, Eq, Hash)]
-enum T {
-    Eq(usize, V),
-    Cnt(usize, V),
-    Stw(usize, V),
-    Enw(usize, V),
-    Pres(usize),
-    Lt(usize, V),
-    Or(Vec<T>),
-    And(Vec<T>),
-    Inc(Vec<T>),
-    Not(Box<T>),
-}
-
-#[derive(Clone, Copy, PartialEq, Debug)]
-enum AK {
-    Iutf8,
-    Iname,
-    Utf8,
-    U32,
-}
-
-const CLASS: usize = 0;
-const NAME: usize = 1;
-const DESC: usize = 2;
-const GID: usize = 3;
-
-fn attrs() -> Vec<Attribute> {
-    vec![Attribute::Class, Attribute::Name, Attribute::Description, Attribute::GidNumber]
-}
-const KINDS: [AK; 4] = [AK::Iutf8, AK::Iname, AK::Utf8, AK::U32];
-
-fn sv(s: &str) -> V {
-    V::S(s.as_bytes().to_vec())
-}
-fn str_of(b: &[u8]) -> String {
-    String::from_utf8(b.to_vec()).unwrap()
-}
-
-fn pv(a: usize, v: &V) -> Option<PartialValue> {
-    match (KINDS[a], v) {
-        (AK::Iutf8, V::S(s)) => Some(PartialValue::new_iutf8(&str_of(s))),
-        (AK::Iname, V::S(s)) => Some(PartialValue::new_iname(&str_of(s))),
-        (AK::Utf8, V::S(s)) => Some(PartialValue::new_utf8s(&str_of(s))),
-        (AK::U32, V::N(n)) => Some(PartialValue::Uint32(*n as u32)),
-        _ => None,
-    }
-}
-fn value(a: usize, v: &V) -> Value {
-    match (KINDS[a], v) {
-        (AK::Iutf8, V::S(s)) => Value::new_iutf8(&str_of(s)),
-        (AK::Iname, V::S(s)) => Value::new_iname(&str_of(s)),
-        (AK::Utf8, V::S(s)) => Value::new_utf8s(&str_of(s)),
-        (AK::U32, V::N(n)) => Value::Uint32(*n as u32),
-        _ => panic!("ill-typed entry value"),
-    }
-}
-fn atom(a: &Attribute) -> usize {
-    attrs().iter().position(|x| x == a).unwrap_or(99)
-}
-fn back(p: &PartialValue) -> V {
-    match p {
-        PartialValue::Iutf8(s) | PartialValue::Iname(s) | PartialValue::Utf8(s) => V::S(s.as_bytes().to_vec()),
-        PartialValue::Uint32(n) => V::N(*n as u64),
-        _ => V::N(999_999),
-    }
-}
-fn show_v(v: &V) -> String {
-    match v {
-        V::S(s) => format!("s{}", s.iter().map(|b| b.to_string()).collect::<Vec<_>>().join(".")),
-        V::N(n) => format!("n{n}"),
-    }
-}
-fn parse_v(s: &str) -> V {
-    if let Some(r) = s.strip_prefix('n') {
-        V::N(r.parse().unwrap())
-    } else {
-        let r = &s[1..];
-        V::S(if r.is_empty() { vec![] } else { r.split('.').map(|x| x.parse().unwrap()).collect() })
-    }
-}
-
-// ---------------------------------------------------------------------------------------------
-// trees
-
-fn show_t(t: &T) -> String {
-    let lst = |l: &Vec<T>| l.iter().map(|x| format!(" {}", show_t(x))).collect::<String>();
-    match t {
-        T::Eq(a, v) => format!("(eq {a} {})", show_v(v)),
-        T::Cnt(a, v) => format!("(cnt {a} {})", show_v(v)),
-        T::Stw(a, v) => format!("(stw {a} {})", show_v(v)),
-        T::Enw(a, v) => format!("(enw {a} {})", show_v(v)),
-        T::Pres(a) => format!("(pres {a})"),
-        T::Lt(a, v) => format!("(lt {a} {})", show_v(v)),
-        T::Or(l) => format!("(or{})", lst(l)),
-        T::And(l) => format!("(and{})", lst(l)),
-        T::Inc(l) => format!("(inc{})", lst(l)),
-        T::Not(f) => format!("(not {})", show_t(f)),
-    }
-}
-
-fn parse_t(s: &str) -> T {
-    let toks: Vec<String> = s.replace('(', " ( ").replace(')', " ) ").split_whitespace().map(|x| x.to_string()).collect();
-    fn go(toks: &[String], i: &mut usize) -> T {
-        assert_eq!(toks[*i], "(");
-        *i += 1;
-        let head = toks[*i].clone();
-        *i += 1;
-        let t = match head.as_str() {
-            "or" | "and" | "inc" => {
-                let mut l = vec![];
-                while toks[*i] != ")" {
-                    l.push(go(toks, i));
-                }
-                match head.as_str() {
-                    "or" => T::Or(l),
-                    "and" => T::And(l),
-                    _ => T::Inc(l),
-                }
-            }
-            "not" => T::Not(Box::new(go(toks, i))),
-            "pres" => {
-                let a: usize = toks[*i].parse().unwrap();
-                *i += 1;
-                T::Pres(a)
-            }
-            _ => {
-                let a: usize = toks[*i].parse().unwrap();
-                let v = parse_v(&toks[*i + 1]);
-                *i += 2;
-                match head.as_str() {
-                    "eq" => T::Eq(a, v),
-                    "cnt" => T::Cnt(a, v),
-                    "stw" => T::Stw(a, v),
-                    "enw" => T::Enw(a, v),
-                    "lt" => T::Lt(a, v),
-                    h => panic!("bad head {h}"),
-                }
-            }
-        };
-        assert_eq!(toks[*i], ")");
-        *i += 1;
-        t
-    }
-    let mut i = 0;
-    go(&toks, &mut i)
-}
-
-fn conn_kinds(t: &T, out: &mut BTreeSet<&'static str>) {
-    match t {
-        T::Or(l) => {
-            out.insert("or");
-            l.iter().for_each(|x| conn_kinds(x, out));
-        }
-        T::And(l) => {
-            out.insert("and");
-            l.iter().for_each(|x| conn_kinds(x, out));
-        }
-        T::Inc(l) => {
-            out.insert("inc");
-            l.iter().for_each(|x| conn_kinds(x, out));
-        }
-        T::Not(f) => {
-            out.insert("not");
-            conn_kinds(f, out);
-        }
-        _ => {}
-    }
-}
-fn has_inc(t: &T) -> bool {
-    match t {
-        T::Inc(_) => true,
-        T::Or(l) | T::And(l) => l.iter().any(has_inc),
-        T::Not(f) => has_inc(f),
-        _ => false,
-    }
-}
-fn needs_scim(t: &T) -> bool {
-    match t {
-        T::Stw(..) | T::Enw(..) => true,
-        T::Or(l) | T::And(l) | T::Inc(l) => l.iter().any(needs_scim),
-        T::Not(f) => needs_scim(f),
-        _ => false,
-    }
-}
-fn depth(t: &T) -> usize {
-    match t {
-        T::Or(l) | T::And(l) | T::Inc(l) => 1 + l.iter().map(depth).max().unwrap_or(0),
-        T::Not(f) => 1 + depth(f),
-        _ => 1,
-    }
-}
-/// the (attribute, index type) pairs `resolve` looks at for the terms of `t`
-fn term_pairs(t: &T, out: &mut BTreeSet<(usize, char)>) {
-    match t {
-        T::Eq(a, _) => {
-            out.insert((*a, 'e'));
-        }
-        T::Cnt(a, _) | T::Stw(a, _) | T::Enw(a, _) => {
-            out.insert((*a, 's'));
-        }
-        T::Pres(a) => {
-            out.insert((*a, 'p'));
-        }
-        T::Lt(a, _) => {
-            out.insert((*a, 'o'));
-        }
-        T::Or(l) | T::And(l) | T::Inc(l) => l.iter().for_each(|x| term_pairs(x, out)),
-        T::Not(f) => term_pairs(f, out),
-    }
-}
-
-/// A NOT that is not a direct child of an AND with a non-NOT sibling (defect D1's shape).
-fn has_isolated_not(t: &T, guarded_here: bool) -> bool {
-    match t {
-        T::Not(f) => !guarded_here || has_isolated_not(f, false),
-        T::And(l) => {
-            let pos = l.iter().any(|x| !matches!(x, T::Not(_)));
-            l.iter().any(|x| has_isolated_not(x, pos))
-        }
-        T::Or(l) | T::Inc(l) => l.iter().any(|x| has_isolated_not(x, false)),
-        _ => false,
-    }
-}
-fn has_empty_needle(t: &T) -> bool {
-    match t {
-        T::Cnt(_, V::S(s)) | T::Stw(_, V::S(s)) | T::Enw(_, V::S(s)) => s.is_empty(),
-        T::Or(l) | T::And(l) | T::Inc(l) => l.iter().any(has_empty_needle),
-        T::Not(f) => has_empty_needle(f),
-        _ => false,
-    }
-}
-/// `a co ""` / `a sw ""` / `a ew ""` become `a pr` (every string contains the empty string).
-fn fill_needles(t: &T) -> T {
-    match t {
-        T::Cnt(a, V::S(s)) | T::Stw(a, V::S(s)) | T::Enw(a, V::S(s)) if s.is_empty() => T::Pres(*a),
-        T::Or(l) => T::Or(l.iter().map(fill_needles).collect()),
-        T::And(l) => T::And(l.iter().map(fill_needles).collect()),
-        T::Inc(l) => T::Inc(l.iter().map(fill_needles).collect()),
-        T::Not(f) => T::Not(Box::new(fill_needles(f))),
-        other => other.clone(),
-    }
-}
-/// Every isolated NOT `n` becomes `And[pres class, n]` (same meaning: every entry has a class).
-fn guard_nots(t: &T, guarded_here: bool) -> T {
-    match t {
-        T::Not(f) => {
-            let inner = T::Not(Box::new(guard_nots(f, false)));
-            if guarded_here {
-                inner
-            } else {
-                T::And(vec![T::Pres(CLASS), inner])
-            }
-        }
-        T::And(l) => {
-            let pos = l.iter().any(|x| !matches!(x, T::Not(_)));
-            T::And(l.iter().map(|x| guard_nots(x, pos)).collect())
-        }
-        T::Or(l) => T::Or(l.iter().map(|x| guard_nots(x, false)).collect()),
-        T::Inc(l) => T::Inc(l.iter().map(|x| guard_nots(x, false)).collect()),
-        other => other.clone(),
-    }
-}
-
-fn to_fc(t: &T) -> Option<FC> {
-    Some(match t {
-        T::Eq(a, v) => FC::Eq(attrs()[*a].clone(), pv(*a, v)?),
-        T::Cnt(a, v) => FC::Cnt(attrs()[*a].clone(), pv(*a, v)?),
-        T::Stw(..) | T::Enw(..) => return None,
-        T::Pres(a) => FC::Pres(attrs()[*a].clone()),
-        T::Lt(a, v) => FC::LessThan(attrs()[*a].clone(), pv(*a, v)?),
-        T::Or(l) => FC::Or(l.iter().map(to_fc).collect::<Option<Vec<_>>>()?),
-        T::And(l) => FC::And(l.iter().map(to_fc).collect::<Option<Vec<_>>>()?),
-        T::Inc(l) => FC::Inclusion(l.iter().map(to_fc).collect::<Option<Vec<_>>>()?),
-        T::Not(f) => FC::AndNot(Box::new(to_fc(f)?)),
-    })
-}
-
-fn to_scim(t: &T) -> Option<ScimFilter> {
-    let path = |a: &usize| AttrPath { a: attrs()[*a].clone(), s: None };
-    let sj = |a: &usize, v: &V| -> Option<Json> {
-        match (KINDS[*a], v) {
-            (AK::U32, _) => None,
-            (_, V::S(s)) => Some(json!(str_of(s))),
-            _ => None,
-        }
-    };
-    fn fold(l: &[T], and: bool) -> Option<ScimFilter> {
-        match l {
-            [] => None,
-            [x] => to_scim(x),
-            [x, rest @ ..] => {
-                let a = Box::new(to_scim(x)?);
-                let b = Box::new(fold(rest, and)?);
-                Some(if and { ScimFilter::And(a, b) } else { ScimFilter::Or(a, b) })
-            }
-        }
-    }
-    Some(match t {
-        T::Eq(a, v) => ScimFilter::Equal(path(a), sj(a, v)?),
-        T::Cnt(a, v) => ScimFilter::Contains(path(a), sj(a, v)?),
-        T::Stw(a, v) => ScimFilter::StartsWith(path(a), sj(a, v)?),
-        T::Enw(a, v) => ScimFilter::EndsWith(path(a), sj(a, v)?),
-        T::Pres(a) => ScimFilter::Present(path(a)),
-        T::Or(l) if l.len() >= 2 => fold(l, false)?,
-        T::And(l) if l.len() >= 2 => fold(l, true)?,
-        T::Not(f) => ScimFilter::Not(Box::new(to_scim(f)?)),
-        _ => return None,
-    })
-}
-
-fn slope_s(s: &Option<std::num::NonZeroU8>) -> String {
-    match s {
-        Some(n) => n.get().to_string(),
-        None => "-".into(),
-    }
-}
-
-/// the resolved filter as the Lean driver's F s-expression
-fn show_fr(f: &FilterResolved) -> String {
-    let lst = |l: &Vec<FilterResolved>| l.iter().map(|x| format!(" {}", show_fr(x))).collect::<String>();
-    match f {
-        FilterResolved::Eq(a, v, s) => format!("(eq {} {} {})", atom(a), show_v(&back(v)), slope_s(s)),
-        FilterResolved::Cnt(a, v, s) => format!("(cnt {} {} {})", atom(a), show_v(&back(v)), slope_s(s)),
-        FilterResolved::Stw(a, v, s) => format!("(stw {} {} {})", atom(a), show_v(&back(v)), slope_s(s)),
-        FilterResolved::Enw(a, v, s) => format!("(enw {} {} {})", atom(a), show_v(&back(v)), slope_s(s)),
-        FilterResolved::Pres(a, s) => format!("(pres {} {})", atom(a), slope_s(s)),
-        FilterResolved::LessThan(a, v, s) => format!("(lt {} {} {})", atom(a), show_v(&back(v)), slope_s(s)),
-        FilterResolved::Or(l, s) => format!("(or {}{})", slope_s(s), lst(l)),
-        FilterResolved::And(l, s) => format!("(and {}{})", slope_s(s), lst(l)),
-        FilterResolved::Invalid(a) => format!("(inv {})", atom(a)),
-        FilterResolved::Inclusion(l, s) => format!("(inc {}{})", slope_s(s), lst(l)),
-        FilterResolved::AndNot(f, s) => format!("(not {} {})", slope_s(s), show_fr(f)),
-    }
-}
-fn fr_terms(f: &FilterResolved, idx: &mut u32, unidx: &mut u32) {
-    let mut leaf = |s: &Option<std::num::NonZeroU8>| {
-        if s.is_some() {
-            *idx += 1
-        } else {
-            *unidx += 1
-        }
-    };
-    match f {
-        FilterResolved::Eq(_, _, s)
-        | FilterResolved::Cnt(_, _, s)
-        | FilterResolved::Stw(_, _, s)
-        | FilterResolved::Enw(_, _, s)
-        | FilterResolved::LessThan(_, _, s)
-        | FilterResolved::Pres(_, s) => leaf(s),
-        FilterResolved::Or(l, _) | FilterResolved::And(l, _) | FilterResolved::Inclusion(l, _) => {
-            l.iter().for_each(|x| fr_terms(x, idx, unidx))
-        }
-        FilterResolved::AndNot(f, _) => fr_terms(f, idx, unidx),
-        FilterResolved::Invalid(_) => {}
-    }
-}
-
-// ---------------------------------------------------------------------------------------------
-// the oracle's evaluator: ordinary boolean semantics, NOT = complement (property text only)
-
-type PlainEntry = Vec<Vec<V>>;
-
-fn has_sub(x: &[u8], n: &[u8]) -> bool {
-    n.is_empty() || x.windows(n.len()).any(|w| w == n)
-}
-
-fn plain(t: &T, e: &PlainEntry) -> bool {
-    let strs = |a: &usize, v: &V, p: &dyn Fn(&[u8], &[u8]) -> bool| match v {
-        V::S(n) => e[*a].iter().any(|x| matches!(x, V::S(x) if p(x, n))),
-        _ => false,
-    };
-    match t {
-        T::Eq(a, v) => e[*a].contains(v),
-        T::Cnt(a, v) => strs(a, v, &|x, n| has_sub(x, n)),
-        T::Stw(a, v) => strs(a, v, &|x, n| x.starts_with(n)),
-        T::Enw(a, v) => strs(a, v, &|x, n| x.ends_with(n)),
-        T::Pres(a) => !e[*a].is_empty(),
-        T::Lt(a, v) => match v {
-            V::N(b) => e[*a].iter().any(|x| matches!(x, V::N(x) if x < b)),
-            _ => false,
-        },
-        T::Or(l) => l.iter().any(|x| plain(x, e)),
-        T::And(l) => l.iter().all(|x| plain(x, e)),
-        T::Inc(_) => false,
-        T::Not(f) => !plain(f, e),
-    }
-}
-
-// ---------------------------------------------------------------------------------------------
-// layouts
-
-const PAIRS: [(usize, char); 12] = [
-    (CLASS, 'e'),
-    (CLASS, 'p'),
-    (CLASS, 's'),
-    (NAME, 'e'),
-    (NAME, 'p'),
-    (NAME, 's'),
-    (DESC, 'e'),
-    (DESC, 's'),
-    (GID, 'e'),
-    (GID, 'p'),
-    (GID, 'o'),
-    (DESC, 'p'),
-];
-
-fn it_of(c: char) -> IndexType {
-    match c {
-        'e' => IndexType::Equality,
-        's' => IndexType::SubString,
-        'p' => IndexType::Presence,
-        _ => IndexType::Ordering,
-    }
-}
-fn it_char(t: &IndexType) -> char {
-    match t {
-        IndexType::Equality => 'e',
-        IndexType::SubString => 's',
-        IndexType::Presence => 'p',
-        IndexType::Ordering => 'o',
-    }
-}
-fn layout_of_mask(mask: u32) -> Vec<(usize, char)> {
-    PAIRS.iter().enumerate().filter(|(i, _)| mask & (1 << i) != 0).map(|(_, p)| *p).collect()
-}
-fn layout_text(l: &[(usize, char)]) -> String {
-    if l.is_empty() {
-        "-".into()
-    } else {
-        l.iter().map(|(a, c)| format!("{a}:{c}")).collect::<Vec<_>>().join(",")
-    }
-}
-fn parse_layout(s: &str) -> Vec<(usize, char)> {
-    if s == "-" || s.is_empty() {
-        return vec![];
-    }
-    s.split(',')
-        .map(|it| {
-            let p: Vec<&str> = it.split(':').collect();
-            (p[0].parse().unwrap(), p[1].chars().next().unwrap())
-        })
-        .collect()
-}
-fn real_layout(l: &[(usize, char)]) -> Vec<(Attribute, IndexType)> {
-    l.iter().map(|(a, c)| (attrs()[*a].clone(), it_of(*c))).collect()
-}
-
-// ---------------------------------------------------------------------------------------------
-// databases
-
-#[derive(Clone, Debug)]
-struct Db {
-    plain: Vec<PlainEntry>,
-}
-
-fn db_text(db: &Db) -> String {
-    db.plain
-        .iter()
-        .map(|e| {
-            let parts: Vec<String> = (0..4)
-                .filter(|a| !e[*a].is_empty())
-                .map(|a| format!("{a}={}", e[a].iter().map(show_v).collect::<Vec<_>>().join("+")))
-                .collect();
-            if parts.is_empty() {
-                "-".into()
-            } else {
-                parts.join(",")
-            }
-        })
-        .collect::<Vec<_>>()
-        .join(";")
-}
-fn parse_db(s: &str) -> Db {
-    let plain = s
-        .split(';')
-        .map(|e| {
-            let mut p: PlainEntry = vec![vec![]; 4];
-            if e != "-" {
-                for item in e.split(',') {
-                    let (a, vs) = item.split_once('=').unwrap();
-                    p[a.parse::<usize>().unwrap()] = vs.split('+').map(parse_v).collect();
-                }
-            }
-            p
-        })
-        .collect();
-    Db { plain }
-}
-
-const BASE_CLASSES: [&str; 2] = ["object", "extensibleobject"];
-const EXTRA_CLASSES: [&str; 3] = ["memberof", "system", "builtin"];
-const NAMES: [&str; 10] = ["vpabcx", "vpzzzz", "vpabcd", "abcdab", "xabcdx", "bcd", "ab", "vp_ga", "vp_gb", "vp_gc"];
-const DESCS: [&str; 6] = ["vp", "abcd efgh", "xxabcyy", "abc", "zz", "vp abcd"];
-const GIDS: [u64; 6] = [1000, 2500, 3000, 4000, 1, 7];
-
-/// the fixed database: the D1 / D13 corpus witnesses plus > FILTER_SUBSTR_TEST_THRESHOLD entries
-/// sharing a trigraph
-fn fixed_db() -> Db {
-    let e = |cl: &[&str], name: Option<&str>, desc: Option<&str>, gid: Option<u64>| -> PlainEntry {
-        let mut c: Vec<V> = BASE_CLASSES.iter().map(|s| sv(s)).collect();
-        c.extend(cl.iter().map(|s| sv(s)));
-        vec![c, name.map(sv).into_iter().collect(), desc.map(sv).into_iter().collect(), gid.map(V::N).into_iter().collect()]
-    };
-    Db {
-        plain: vec![
-            e(&["memberof"], Some("vpabcx"), Some("vp"), Some(3000)),
-            e(&["memberof"], Some("vpzzzz"), Some("vp"), Some(4000)),
-            e(&["system"], Some("vpabcd"), Some("abcd efgh"), Some(1000)),
-            e(&[], Some("abcdab"), Some("xxabcyy"), None),
-            e(&["memberof", "system"], Some("xabcdx"), None, Some(2500)),
-            e(&[], Some("bcd"), Some("abc"), Some(7)),
-            e(&["builtin"], Some("vp_ga"), Some("vp"), None),
-            e(&["builtin"], Some("vp_gb"), Some("vp"), Some(1)),
-            e(&[], Some("vp_gc"), Some("vp"), None),
-            e(&["system"], None, Some("vp abcd"), None),
-        ],
-    }
-}
-
-fn random_db(r: &mut Rng) -> Db {
-    let n = r.range(1, 9) as usize;
-    let mut plain = vec![];
-    for _ in 0..n {
-        let mut c: Vec<V> = BASE_CLASSES.iter().map(|s| sv(s)).collect();
-        for x in EXTRA_CLASSES {
-            if r.chance(1, 3) {
-                c.push(sv(x));
-            }
-        }
-        let name = if r.chance(4, 5) { vec![sv(r.pick(&NAMES))] } else { vec![] };
-        let desc = if r.chance(2, 3) { vec![sv(r.pick(&DESCS))] } else { vec![] };
-        let gid = if r.chance(1, 2) { vec![V::N(*r.pick(&GIDS))] } else { vec![] };
-        plain.push(vec![c, name, desc, gid]);
-    }
-    Db { plain }
-}
-
-fn real_entry(p: &PlainEntry, n: usize) -> Entry<EntryInit, EntryNew> {
-    let mut e: Entry<EntryInit, EntryNew> = Entry::new();
-    e.add_ava(Attribute::Uuid, Value::Uuid(nat_uuid(1000 + n as u64)));
-    for a in 0..4 {
-        for v in &p[a] {
-            e.add_ava(attrs()[a].clone(), value(a, v));
-        }
-    }
-    e
-}
+include!("../bin_c01/common.rs");
 
 // ---------------------------------------------------------------------------------------------
 
@@ -596,6 +41,8 @@ struct Loaded {
     be: Backend,
     ids: Vec<u64>,
     layout: Vec<(usize, char)>,
+    /// index metadata when it differs from the tables
+    meta: Option<Vec<(usize, char)>>,
     /// answers seen for a tree under earlier layouts of this database (layout independence)
     seen: BTreeMap<String, (String, String)>,
 }
@@ -647,21 +94,31 @@ impl<'a, 'b> Ctx<'a, 'b> {
         );
         let r = self.drv.ask(&line);
         assert!(r.starts_with("ok "), "driver refused the database: {r} / {line}");
-        Ok(Loaded { db: db.clone(), be, ids, layout: vec![], seen: BTreeMap::new() })
+        Ok(Loaded { db: db.clone(), be, ids, layout: vec![], meta: None, seen: BTreeMap::new() })
     }
 
     /// re-index under `layout` (second `update_idxmeta` picks up the analysed slopes when `stats`),
     /// dump the tables to the model and check the theorem's index hypothesis
     fn set_layout(&mut self, ld: &mut Loaded, layout: &[(usize, char)], stats: bool) -> Result<(), String> {
+        self.set_layout_meta(ld, layout, stats, None)
+    }
+
+    /// `meta`: after the reindex under `layout`, replace the index metadata alone by this layout
+    /// (tables and metadata then disagree: configured-but-missing and present-but-unconfigured tables)
+    fn set_layout_meta(&mut self, ld: &mut Loaded, layout: &[(usize, char)], stats: bool, meta: Option<&[(usize, char)]>) -> Result<(), String> {
         {
             let mut wr = ld.be.write().map_err(|e| format!("{e:?}"))?;
             c01::set_layout(&mut wr, &real_layout(layout), true).map_err(|e| format!("{e:?}"))?;
             if stats {
                 c01::set_layout(&mut wr, &real_layout(layout), false).map_err(|e| format!("{e:?}"))?;
             }
+            if let Some(m) = meta {
+                c01::set_layout(&mut wr, &real_layout(m), false).map_err(|e| format!("{e:?}"))?;
+            }
             wr.commit().map_err(|e| format!("{e:?}"))?;
         }
         ld.layout = layout.to_vec();
+        ld.meta = meta.map(|m| m.to_vec());
         let mut rd = ld.be.read().map_err(|e| format!("{e:?}"))?;
         let dump = c01::dump_indexes(&mut rd).map_err(|e| format!("{e:?}"))?;
         let mut tbls = vec![];
@@ -743,7 +200,7 @@ impl<'a, 'b> Ctx<'a, 'b> {
     fn eval(&mut self, ld: &mut Loaded, c: &Case, stats: bool) -> Vec<Failure> {
         let mut fails = vec![];
         let input = json!({
-            "db": db_text(&ld.db), "layout": layout_text(&ld.layout), "t": show_t(&c.t), "route": c.route,
+            "db": db_text(&ld.db), "layout": layout_text(&ld.layout), "meta": ld.meta.as_ref().map(|m| layout_text(m)), "t": show_t(&c.t), "route": c.route,
             "resolve": c.resolve, "rcache": c.rcache,
             "lims": [c.lims.0 as u64, c.lims.1 as u64, c.lims.2 as u64],
         });
@@ -961,205 +418,6 @@ impl<'a, 'b> Ctx<'a, 'b> {
     }
 }
 
-/// one-step simplifications of a tree
-fn shrinks(t: &T) -> Vec<T> {
-    let mut out = vec![];
-    match t {
-        T::Or(l) | T::And(l) | T::Inc(l) => {
-            let mk = |v: Vec<T>| match t {
-                T::Or(_) => T::Or(v),
-                T::And(_) => T::And(v),
-                _ => T::Inc(v),
-            };
-            for c in l {
-                out.push(c.clone());
-            }
-            if l.len() > 1 {
-                for i in 0..l.len() {
-                    let mut v = l.clone();
-                    v.remove(i);
-                    out.push(mk(v));
-                }
-            }
-            for i in 0..l.len() {
-                for s in shrinks(&l[i]) {
-                    let mut v = l.clone();
-                    v[i] = s;
-                    out.push(mk(v));
-                }
-            }
-        }
-        T::Not(f) => {
-            out.push((**f).clone());
-            for s in shrinks(f) {
-                out.push(T::Not(Box::new(s)));
-            }
-        }
-        _ => {}
-    }
-    out
-}
-
-// ---------------------------------------------------------------------------------------------
-// generators
-
-fn leaf_alphabet(scim: bool) -> Vec<T> {
-    let mut l = vec![
-        T::Eq(CLASS, sv("memberof")),
-        T::Eq(CLASS, sv("system")),
-        T::Eq(CLASS, sv("builtin")),
-        T::Eq(CLASS, sv("object")),
-        T::Eq(CLASS, sv("nosuchclass")),
-        T::Eq(NAME, sv("vp_ga")),
-        T::Eq(NAME, sv("vp_gb")),
-        T::Eq(NAME, sv("vpabcd")),
-        T::Eq(NAME, sv("nobody")),
-        T::Eq(DESC, sv("vp")),
-        T::Eq(DESC, sv("abc")),
-        T::Pres(CLASS),
-        T::Pres(NAME),
-        T::Pres(DESC),
-        T::Pres(GID),
-        T::Cnt(NAME, sv("abcd")),
-        T::Cnt(NAME, sv("abc")),
-        T::Cnt(NAME, sv("bc")),
-        T::Cnt(NAME, sv("b")),
-        T::Cnt(NAME, sv("vp_g")),
-        T::Cnt(NAME, sv("qqq")),
-        T::Cnt(DESC, sv("abcd")),
-        T::Cnt(DESC, sv("vp")),
-        T::Cnt(DESC, sv(" ")),
-        T::Cnt(CLASS, sv("member")),
-        T::Cnt(CLASS, sv("object")),
-        T::Cnt(NAME, sv("")),
-        T::Cnt(DESC, sv("")),
-    ];
-    if scim {
-        l.extend([
-            T::Stw(NAME, sv("vpab")),
-            T::Stw(NAME, sv("abc")),
-            T::Stw(DESC, sv("vp")),
-            T::Enw(NAME, sv("bcd")),
-            T::Enw(NAME, sv("x")),
-            T::Enw(DESC, sv("abcd")),
-            T::Stw(CLASS, sv("ext")),
-        ]);
-    } else {
-        l.extend([
-            T::Eq(GID, V::N(3000)),
-            T::Eq(GID, V::N(5)),
-            T::Lt(GID, V::N(2500)),
-            T::Lt(GID, V::N(2501)),
-            T::Lt(GID, V::N(1)),
-            T::Lt(GID, V::N(5000)),
-            T::Lt(GID, V::N(8)),
-        ]);
-    }
-    l
-}
-
-fn random_tree(r: &mut Rng, leaves: &[T], depth: usize, maxw: usize, inc: bool) -> T {
-    if depth <= 1 || r.chance(1, 4) {
-        return r.pick(leaves).clone();
-    }
-    match r.below(if inc { 11 } else { 10 }) {
-        0..=3 => {
-            // an AND that usually has a positive term and some NOTs (the guarded shape)
-            let wd = r.range(1, maxw as u64) as usize;
-            let mut l: Vec<T> = (0..wd).map(|_| random_tree(r, leaves, depth - 1, maxw, inc)).collect();
-            let nn = r.below(3) as usize;
-            for _ in 0..nn {
-                l.push(T::Not(Box::new(random_tree(r, leaves, depth - 1, maxw, inc))));
-            }
-            r.shuffle(&mut l);
-            T::And(l)
-        }
-        4..=6 => {
-            let wd = r.range(1, maxw as u64) as usize;
-            T::Or((0..wd).map(|_| random_tree(r, leaves, depth - 1, maxw, inc)).collect())
-        }
-        7 | 8 => {
-            let wd = r.range(1, maxw as u64) as usize;
-            T::And((0..wd).map(|_| random_tree(r, leaves, depth - 1, maxw, inc)).collect())
-        }
-        9 => T::Not(Box::new(random_tree(r, leaves, depth - 1, maxw, inc))),
-        _ => {
-            let wd = r.range(1, maxw as u64) as usize;
-            T::Inc((0..wd).map(|_| r.pick(leaves).clone()).collect())
-        }
-    }
-}
-
-fn random_lims(r: &mut Rng) -> (bool, usize, usize) {
-    match r.below(10) {
-        0 => (false, 1 << 40, 1 << 40),
-        1 => (true, r.range(0, 4) as usize, 1 << 40),
-        2 => (true, 1 << 40, r.range(0, 4) as usize),
-        3 => (false, r.range(1, 6) as usize, r.range(1, 6) as usize),
-        _ => (true, 1 << 40, 1 << 40),
-    }
-}
-
-fn random_foreign(r: &mut Rng) -> String {
-    let slopes: [u8; 7] = [0, 1, 2, 5, 90, 200, 255];
-    let mut l = vec![];
-    for (a, c) in PAIRS {
-        if r.chance(1, 2) {
-            l.push(format!("{a}:{c}:{}", r.pick(&slopes)));
-        }
-    }
-    if l.is_empty() {
-        "-".into()
-    } else {
-        l.join(",")
-    }
-}
-
-/// exhaustive small scope: every tree of depth <= 2 over `leaves` (plus their negations as AND/OR
-/// children) with width <= `maxw`, plus top-level leaf / NOT leaf
-fn small_scope(leaves: &[T], maxw: usize) -> Vec<T> {
-    let mut kids: Vec<T> = leaves.to_vec();
-    kids.extend(leaves.iter().map(|l| T::Not(Box::new(l.clone()))));
-    let mut out: Vec<T> = kids.clone();
-    let mut seqs: Vec<Vec<T>> = kids.iter().map(|k| vec![k.clone()]).collect();
-    let mut all_seqs = seqs.clone();
-    for _ in 1..maxw {
-        let mut next = vec![];
-        for s in &seqs {
-            for k in &kids {
-                let mut v = s.clone();
-                v.push(k.clone());
-                next.push(v);
-            }
-        }
-        all_seqs.extend(next.iter().cloned());
-        seqs = next;
-    }
-    for s in all_seqs {
-        out.push(T::And(s.clone()));
-        out.push(T::Or(s));
-    }
-    out
-}
-
-/// the corpus: D13 witnesses (repaired: must pass) and D1 witnesses (known finding)
-fn corpus() -> Vec<T> {
-    let n = |t: T| T::Not(Box::new(t));
-    vec![
-        // D13 (fixed by 3e8bc43): AND NOT of an ordering / substring term
-        T::And(vec![T::Eq(CLASS, sv("memberof")), n(T::Lt(GID, V::N(2500)))]),
-        T::And(vec![T::Eq(CLASS, sv("memberof")), n(T::Cnt(NAME, sv("abcd")))]),
-        T::And(vec![T::Eq(CLASS, sv("system")), n(T::Cnt(NAME, sv("abcd")))]),
-        T::And(vec![T::Pres(NAME), n(T::Lt(GID, V::N(2500))), n(T::Cnt(NAME, sv("abc")))]),
-        T::And(vec![T::Cnt(NAME, sv("abc")), n(T::Cnt(NAME, sv("abcd")))]),
-        // D1 (known): NOT under OR, AND of only NOTs, top-level NOT
-        T::And(vec![T::Eq(DESC, sv("vp")), T::Or(vec![T::Eq(NAME, sv("vp_ga")), n(T::Eq(NAME, sv("vp_gb")))])]),
-        T::And(vec![n(T::Eq(NAME, sv("vp_ga"))), n(T::Eq(CLASS, sv("system")))]),
-        n(T::Eq(NAME, sv("vp_ga"))),
-        T::Or(vec![T::Eq(NAME, sv("vp_ga")), n(T::Eq(NAME, sv("vp_gb")))]),
-    ]
-}
-
 fn main() {
     let args = Args::parse();
     let rt = tokio::runtime::Builder::new_current_thread().enable_all().build().unwrap();
@@ -1219,7 +477,8 @@ fn run_all(args: &Args, ctx: &mut Ctx) {
             lims: (lims[0].as_u64().unwrap() != 0, lims[1].as_u64().unwrap() as usize, lims[2].as_u64().unwrap() as usize),
         };
         let mut ld = ctx.load(&db).expect("load");
-        ctx.set_layout(&mut ld, &layout, false).expect("layout");
+        let meta = inp["meta"].as_str().map(parse_layout);
+        ctx.set_layout_meta(&mut ld, &layout, false, meta.as_deref()).expect("layout");
         ctx.run(&mut ld, &c);
         return;
     }
@@ -1319,7 +578,12 @@ fn run_all(args: &Args, ctx: &mut Ctx) {
                 _ => r.next() as u32 & ((1u32 << PAIRS.len()) - 1),
             };
             let layout = layout_of_mask(mask);
-            if let Err(e) = ctx.set_layout(&mut ld, &layout, r.chance(1, 2)) {
+            let meta = if li >= 2 && r.chance(1, 4) { Some(layout_of_mask(r.next() as u32 & ((1u32 << PAIRS.len()) - 1))) } else { None };
+            if meta.is_some() {
+                ctx.rep.count("layouts:metadata-differs-from-tables");
+            }
+            ctx.rep.count("layouts:random");
+            if let Err(e) = ctx.set_layout_meta(&mut ld, &layout, r.chance(1, 2), meta.as_deref()) {
                 infra_failure(ctx, "reindex + sound tables", json!({"db": db_text(&db), "layout": layout_text(&layout)}), e);
                 continue;
             }
